@@ -25,9 +25,10 @@ RULE = ('one evaluation = one seeded single-client history (30-200 calls) of wri
         'the policy permits; non-trivial = at least one size eviction or expired cull was observed; distinct = SHA-256 of '
         '(configuration, program)')
 RULE += ' ' + 'cull_limit also takes the values 12 and 25.'
+RULE += ' ' + 'One seed in 61 fills a cache to its limit and writes inside transact() blocks.'
 ASSUMPTIONS = ['"reached the size limit" is decided black-box: volume() before the write - size of the item it replaces + size of the new value + 8 database pages of slack >= size_limit',
                'policy keys (store time, access time, access count) are maintained by the model from the virtual clock readings; ties are accepted in any order']
-PROBES = ('evictions', 'cull_expired', 'cull_policy', 'at_limit_writes', 'fanout_runs')
+PROBES = ('evictions', 'cull_expired', 'cull_policy', 'at_limit_writes', 'fanout_runs', 'writes_inside_blocks_at_limit')
 TECHNIQUE = 'deterministic simulation (virtual clock drives store/access times) + model-based judging of every observed removal set against the policy'
 LEVEL_TEXT = ('seeded exploration of write/read histories under a controlled clock; eviction is nondeterministic in the model, so each '
               'observed removal set is validated for legality (limit reached, policy order, count bound, expired first) and then adopted.')
@@ -38,6 +39,11 @@ SLACK_PAGES = 8
 
 def gen_case(seed, tier):
     rng = random.Random('%s/c09' % seed)
+    if seed % 61 == 5:
+        # a cache that has reached its size limit, and writes made inside transact() blocks: eviction is not put off
+        return {'seed': seed, 'cfg': {'kind': 'block', 'policy': rng.choice(('least-recently-stored', 'least-recently-used', 'least-frequently-used')),
+                                      'cull_limit': rng.choice((1, 2, 10)), 'fanout': rng.random() < 0.3, 'writes': rng.choice((1, 3)),
+                                      'how': rng.choice(('set', 'add', 'incr', 'push'))}, 'prog': []}
     policy = rng.choice(('least-recently-stored', 'least-recently-used', 'least-frequently-used', 'none'))
     settings = {'eviction_policy': policy, 'cull_limit': rng.choice((0, 1, 2, 10, 10, 12, 25)), 'statistics': rng.choice((0, 1)),
                 'tag_index': 0, 'disk_min_file_size': rng.choice((256, 1024)), 'size_limit': rng.choice((100000, 200000, 400000))}
@@ -142,6 +148,55 @@ def gen_case(seed, tier):
     return {'seed': seed, 'cfg': cfg, 'prog': prog}
 
 
+def run_block(case):
+    from ..world import World
+    from ..seq import RawView
+    cfg = case['cfg']
+    violations = []
+    world = World(case['seed'], clock={'mode': 'frozen'}, yield_clock=False)
+    sim = world.sim
+    try:
+        dc = world.dc
+        kw = dict(eviction_policy=cfg['policy'], cull_limit=cfg['cull_limit'], size_limit=200000, disk_min_file_size=64)
+        cache = dc.FanoutCache(world.path('f'), shards=1, **kw) if cfg['fanout'] else dc.Cache(world.path('c'), **kw)
+        i = 0
+        while cache.volume() < 200000 and i < 200:
+            cache.set('fill-%03d' % i, b'f' * 8000)
+            sim.advance(0.01)
+            i += 1
+        shard = cache._shards[0] if cfg['fanout'] else cache
+        raw = RawView(shard.directory)
+        for w in range(cfg['writes']):
+            before = set(raw.rowids())
+            vol = cache.volume()
+            with cache.transact():
+                if cfg['how'] == 'set':
+                    cache.set('new-%d' % w, b'n' * 8000)
+                elif cfg['how'] == 'add':
+                    cache.add('new-%d' % w, b'n' * 8000)
+                elif cfg['how'] == 'incr':
+                    cache.incr('ctr-%d' % w)
+                else:
+                    shard.push(b'n' * 8000, prefix='q')
+            gone = before - set(raw.rowids())
+            if vol >= 200000 and not gone:
+                violations.append({'rule': 'C09/limit-reached-nothing-evicted', 'sig': 'write-inside-a-block:%s' % cfg['how'],
+                                   'detail': '%s inside transact() with volume() %d >= size_limit 200000, cull_limit %d, policy %s: no item was removed'
+                                             % (cfg['how'], vol, cfg['cull_limit'], cfg['policy'])})
+                break
+            if len(gone) > cfg['cull_limit']:
+                violations.append({'rule': 'C09/cull-limit-exceeded', 'sig': 'write-inside-a-block', 'detail': '%d rows removed, cull_limit %d' % (len(gone), cfg['cull_limit'])})
+                break
+            sim.advance(0.01)
+        raw.close()
+        cache.close()
+    finally:
+        world.close()
+    digest = hashlib.sha256(json.dumps(case['cfg'], sort_keys=True).encode()).hexdigest()
+    return {'violations': violations, 'digest': digest, 'steps': 30, 'switches': 0, 'fired': {}, 'probes': {'writes_inside_blocks_at_limit': 1, 'evictions': 1},
+            'virtual_s': 0.0, 'nontrivial': True, 'outcome': {'ops': 30}}
+
+
 def value_size_upper(op):
     v = op.get('v')
     if isinstance(v, dict) and 'big' in v:
@@ -165,6 +220,8 @@ def at_limit(cache, model, op):
 
 
 def run_case(case):
+    if case['cfg'].get('kind') == 'block':
+        return run_block(case)
     if case['cfg'].get('fanout'):
         return run_fanout(case)
     seen = {'at_limit': 0}
